@@ -87,6 +87,36 @@ func complete(c Cmd) Cmd {
 		if _, ok := out["epic"]; !ok {
 			out["epic"] = ""
 		}
+	case "plan":
+		if _, ok := out["newids"]; !ok {
+			out["newids"] = []string{}
+		}
+		if d, ok := out["doc"].(map[string]any); ok {
+			if _, has := d["body"]; !has {
+				d["body"] = Absent
+			}
+			if _, has := d["title"]; !has {
+				d["title"] = Absent
+			}
+			ts, _ := d["tasks"].([]any)
+			if ts == nil {
+				ts = []any{}
+			}
+			for _, t := range ts {
+				if tm, ok := t.(map[string]any); ok {
+					if _, has := tm["body"]; !has {
+						tm["body"] = Absent
+					}
+					if _, has := tm["title"]; !has {
+						tm["title"] = Absent
+					}
+					if _, has := tm["after"]; !has {
+						tm["after"] = []any{}
+					}
+				}
+			}
+			d["tasks"] = ts
+		}
 	case "compact":
 		if _, ok := out["again"]; !ok {
 			out["again"] = false
@@ -265,6 +295,8 @@ func invocation(c Cmd, ids *IDMap) (args []string, stdin []byte) {
 		args = append(args, "show", realID("id"))
 	case "where":
 		args = append(args, "where")
+	case "init":
+		args = append(args, "init")
 	default:
 		args = append(args, "version")
 	}
@@ -416,6 +448,17 @@ func (sp *Stepper) step(c Cmd, tag string) *Obs {
 	var env []string
 	if ids := c.strs("forceids"); len(ids) > 0 {
 		env = append(env, "ERGO_VERIF_IDS="+strings.Join(ids, ","))
+	}
+	if c.boolean("reuse_gone") {
+		// make the id source propose every pruned id first (the hook hands them out in order)
+		var forced []string
+		for g := range sp.Gone {
+			forced = append(forced, sp.IDs.real(g))
+		}
+		sort.Strings(forced)
+		if len(forced) > 0 {
+			env = append(env, "ERGO_VERIF_IDS="+strings.Join(forced, ","))
+		}
 	}
 	res := sp.St.run(stdin, env, args...)
 	rawPost := sp.St.readLog()
